@@ -278,3 +278,21 @@ Proof.
   intros m1 m2 r H1 H2 He. rewrite <- (app_nil_r (enc_msg m1)) in He.
   destruct (enc_msg_injective m1 m2 [] r H1 H2 He) as [Hm Hr]. split; [exact Hm|now symmetry].
 Qed.
+
+(* a byte stream splits into valid frames in at most one way *)
+Lemma enc_msg_nonempty : forall m r, enc_msg m ++ r <> [].
+Proof.
+  intros m r He. apply (f_equal (@List.length _)) in He.
+  unfold enc_msg in He. rewrite !app_length, enc_header_length in He. discriminate He.
+Qed.
+Lemma enc_stream_injective : forall ms1 ms2, Forall valid_msg ms1 -> Forall valid_msg ms2 ->
+  concat (map enc_msg ms1) = concat (map enc_msg ms2) -> ms1 = ms2.
+Proof.
+  induction ms1 as [|m1 ms1 IH]; intros ms2 H1 H2 He; destruct ms2 as [|m2 ms2]; cbn [map concat] in He.
+  - reflexivity.
+  - exfalso. symmetry in He. now apply enc_msg_nonempty in He.
+  - exfalso. now apply enc_msg_nonempty in He.
+  - inversion H1 as [|x1 l1 Hm1 Hr1]; subst. inversion H2 as [|x2 l2 Hm2 Hr2]; subst.
+    destruct (enc_msg_injective m1 m2 _ _ Hm1 Hm2 He) as [Hm Hr]. subst m2.
+    f_equal. now apply IH.
+Qed.
